@@ -43,7 +43,9 @@ LIB_RULES = [("section", "section_unique_ids"), ("section", "property_unique_ids
              ("section", "property_unique_names"), ("property", "property_dependency_check"),
              ("property", "property_values_check"), ("property", "property_values_string_check"),
              ("section", "section_properties_cardinality"), ("property", "property_values_cardinality"),
-             ("section", "object_name_readable"), ("property", "object_required_attributes")]
+             ("section", "object_name_readable"), ("property", "object_required_attributes"),
+             # the two optional rules that look at the repository (only file: URLs are ever fetched)
+             ("section", "section_repository_present"), ("property", "property_terminology_check")]
 
 _IMPORT_REGISTRY = {k: frozenset(v) for k, v in Validation._handlers.items()}
 MARK = "C19 marker rule fired"
@@ -203,6 +205,19 @@ def body(case):
                     between = False
                 elif step == "custom_lib":
                     klass, fname = LIB_RULES[a % len(LIB_RULES)]
+                    if fname in ("section_repository_present", "property_terminology_check"):
+                        repos = [doc.repository] + [s_.repository for s_ in secs]
+                        if any(r and not str(r).startswith("file:") for r in repos):
+                            klass, fname = LIB_RULES[0]
+                        elif secs:
+                            # the shape these rules are about: a repository that Sections inherit
+                            if not doc.repository:
+                                doc.repository = "file:///nonexistent/t.xml"
+                            for s_ in secs[:2]:
+                                s_.repository = None
+                            last_default = None
+                            universe = snap.reachable([doc])
+                            before = snap.identity(universe)
                     runs = []
                     for _ in range(2):
                         v = Validation(doc, validate=False, reset=True)
